@@ -22,6 +22,7 @@ fn main() {
         "C26" => c26::main(args),
         "C22" => c22::main(args),
         "SVDUMP" => dump::main(args),
+        "SVDIFF" => dump::diff(args),
         "SVSELF" => match svref::selftest::self_test() {
             Ok(n) => println!("svref self-test ok: {n} groups"),
             Err(e) => {
